@@ -84,6 +84,7 @@ func ruleA5(r *Run, p *Prog) {
 	// Fields: arms of the type switch in appendFieldList
 	afl := p.Func("", "appendFieldList")
 	if r.Anchor(afl != nil, "A5", "appendFieldList") {
+		afl = p.View(afl, "", nil) // arms may delegate to private helpers that switch on the type again
 		eachInstr(afl, func(b *ssa.BasicBlock, i int, in ssa.Instruction) {
 			c, ok := in.(*ssa.Call)
 			if !ok || len(c.Call.Args) < 3 {
